@@ -584,6 +584,41 @@ encodeResponse:
         *alertDescription = SSL_ALERT_NONE;
         rc = sslEncodeResponse(ssl, &tmp, requiredLen);
     }
+    if (rc == SSL_FULL && useOutbufForResponse)
+    {
+        /* The response does not fit into what is left of outbuf, and it
+           cannot be built in inbuf either (the SSL_FULL path of the caller
+           rebuilds it there and discards inbuf): undecoded input - the
+           beginning of the peer's next record - follows this record.
+           Make room in outbuf and encode again; flight encoding is
+           re-entrant after SSL_FULL. */
+        psSizeL_t need = (psSizeL_t) ssl->outlen + *requiredLen;
+        unsigned char *grown;
+
+        if (need > SSL_MAX_BUF_SIZE)
+        {
+            *error = MATRIXSSL_ERROR;
+            return PS_MEM_FAIL;
+        }
+        grown = psRealloc(ssl->outbuf, need, ssl->bufferPool);
+        if (grown == NULL)
+        {
+            *error = MATRIXSSL_ERROR;
+            return PS_MEM_FAIL;
+        }
+        ssl->outbuf = grown;
+        ssl->outsize = need;
+        tmp.buf = tmp.start = tmp.end = ssl->outbuf + ssl->outlen;
+        tmp.size = ssl->outsize - ssl->outlen;
+        if (ssl->err != SSL_ALERT_NONE)
+        {
+            rc = tls13EncodeAlert(ssl, ssl->err, &tmp, requiredLen);
+        }
+        else
+        {
+            rc = sslEncodeResponse(ssl, &tmp, requiredLen);
+        }
+    }
     if (rc == SSL_FULL)
     {
         ssl->flags |= SSL_FLAGS_NEED_ENCODE;
